@@ -49,6 +49,12 @@ def match(expr, want_text, fold=None):
         want = _fold(want, fold)
     if canon(expr) == canon(want):
         return 'same'
+    try:
+        from .rules import canon_arith
+        if not isinstance(expr, (ast.Compare, ast.BoolOp)) and canon_arith(expr) == canon_arith(want):
+            return 'same'
+    except Exception:
+        pass
     if names(expr) == names(want):
         return 'near'
     return 'other'
